@@ -142,22 +142,26 @@ func Start(ds DataSource, queuedRequests chan func(), Npresamp int, Nsamples int
 		return err
 	}
 	if err := ds.Sample(); err != nil {
+		abortStart(ds)
 		ds.SetStateInactive()
 		return err
 	}
 
 	if err := ds.PrepareChannels(); err != nil {
+		abortStart(ds)
 		ds.SetStateInactive()
 		return err
 	}
 
 	if err := ds.PrepareRun(Npresamp, Nsamples); err != nil {
+		abortStart(ds)
 		ds.SetStateInactive()
 		return err
 	}
 
 	ds.RunDoneActivate() // Call RunDoneDeactivate inside CoreLoop when it returns.
 	if err := ds.StartRun(); err != nil {
+		abortStart(ds)
 		ds.RunDoneDeactivate()
 		return err
 	}
@@ -202,6 +206,20 @@ func CoreLoop(ds DataSource, queuedRequests chan func()) {
 			// data acquisition step (Lancero, specifically).
 			nextBlock = ds.getNextBlock()
 		}
+	}
+}
+
+// startAborter is implemented by sources that take hold of devices (sockets, ring buffers,
+// firmware components) while starting, and normally release them when the run ends.
+type startAborter interface {
+	abortStart()
+}
+
+// abortStart lets the source release whatever the start steps performed so far have acquired.
+// A Start that fails never launches the goroutines that would do this at the end of a run.
+func abortStart(ds DataSource) {
+	if sa, ok := ds.(startAborter); ok {
+		sa.abortStart()
 	}
 }
 
